@@ -69,6 +69,7 @@ PROPS = {
                         "'ties by id': the statement gives no direction; the smallest and the largest id of the tied group are both accepted",
                         "'signing time' is the instant Now() returned; when the instant truncated to the second (the value in the header) selects differently, both are accepted"],
         "parts": [{"engine": "push", "test": "TestProp_C17_Sign", "quick": 320000, "thorough": 1600000, "shards": {"quick": 8, "thorough": 16}},
+                  {"engine": "push", "test": "TestProp_C17_SignSequence", "quick": 60000, "thorough": 600000, "shards": {"quick": 4, "thorough": 16}},
                   {"engine": "push", "test": "TestProp_C17_Select", "quick": 320000, "thorough": 1600000, "shards": {"quick": 8, "thorough": 16}}],
         "guards": ["signed-ok", "no-valid-version", "secret-unloadable", "nt:>=2-valid", "at-boundary-exactly", "tie-on-valid_from", "path-with-escapes"],
     },
